@@ -17,15 +17,20 @@ Definition nan_to_num (x : float) : float :=
   else if PrimFloat.eqb x infinity then 0x1.fffffffffffffp+1023
   else if PrimFloat.eqb x neg_infinity then (-0x1.fffffffffffffp+1023) else x.
 
-(* oracle lookup tolerant to last-bit differences of the arguments (comparisons here are to a tolerance anyway) *)
-Fixpoint olookup2_near (tbl : list (float * float * float)) (x y : float) : float :=
+(* oracle lookup tolerant to rounding differences of the arguments (the model's sums are ordered differently from BLAS / einsum, and the
+   comparisons here are to a tolerance anyway): the NEAREST table entry is taken, and it must lie within 2^-30 of the arguments
+   (nearest, not first: tables may hold entries for almost equal arguments, e.g. swept and unswept section angles) *)
+Definition odist (a b x y : float) : float := abs (a - x) + abs (b - y).
+Fixpoint onearest (tbl : list (float * float * float)) (x y : float) (best : float * float) : float * float :=
   match tbl with
-  | [] => nan
+  | [] => best
   | (a, b, r) :: t =>
-      let s := abs x + abs y in
-      if PrimFloat.leb (abs (a - x)) (0x1p-44 * s) && PrimFloat.leb (abs (b - y)) (0x1p-44 * s) then r
-      else olookup2_near t x y
+      let d := odist a b x y in
+      if PrimFloat.ltb d (fst best) then onearest t x y (d, r) else onearest t x y best
   end.
+Definition olookup2_near (tbl : list (float * float * float)) (x y : float) : float :=
+  let '(d, r) := onearest tbl x y (infinity, nan) in
+  if PrimFloat.leb d (0x1p-30 * (abs x + abs y)) then r else nan.
 
 Definition inv4piF (pi : float) : float := 1 / (4 * pi).
 Definition kernelF (pi : float) (diag : bool) (h : hshoe float) : v3 float :=
